@@ -10,5 +10,6 @@ cd /verif
 for id in "$@"; do
   VERIF_REPO="$W/src" ./check "$id" > "$W/out" 2>&1; rc=$?
   echo "$id exit=$rc $(grep -c '^VIOLATION' "$W/out") violation line(s)"
-  grep -E '^  R|ANALYSIS-BROKEN' "$W/out" | sed "s#$W/src#<scratch>#g" | cut -c1-${EW:-330} | head -${EL:-4}
+  [ -n "$EKEEP" ] && [ "$rc" != 0 ] && cp "$W/out" "$EKEEP/$(basename "$P").$id.out"
+  grep -E '^  R|ANALYSIS-BROKEN' "$W/out" | sed "s#$W/src#<scratch>#g" | cut -c1-${EW:-330} | head -${EL:-4}; true
 done
